@@ -95,6 +95,13 @@ func C20Payload(tape *simrt.Tape, tier string) ([]byte, string) {
 		p := bytes.Repeat([]byte(fmt.Sprintf("line %d of a repetitive text\n", seed%97)), 40+seed%80)
 		return p, fmt.Sprintf("repetitive text (%d bytes)", len(p))
 	default:
+		if seed%3 == 0 {
+			// just above the sizes at which block-based codecs switch to several
+			// blocks / a larger window (zstd: 128 KiB blocks), like the ~200 KB
+			// messages of the message-size suites
+			n := []int{128 << 10, 128<<10 + 1, 200 << 10}[(seed/3)%3]
+			return bytes.Repeat([]byte("0123456789abcdef"), n/16+1)[:n], fmt.Sprintf("%d bytes of repetitive text", n)
+		}
 		return make([]byte, big), fmt.Sprintf("%d KiB zeros", big>>10)
 	}
 }
